@@ -25,6 +25,9 @@ NT = NewType("NT", int)
 class TD(TypedDict):
     a: int
     b: NotRequired[str]
+class TDK(TypedDict):
+    k1: int
+    k2: NotRequired[str]
 class HasLen(Protocol):
     def __len__(self) -> int: ...
 T = TypeVar("T")
@@ -90,12 +93,29 @@ def headers(tier):
     # dunder-prefixed names, return annotations, async / generator variants
     out += [("def", "__x: int, y: str = 'a'", "str"), ("def", "__x, __y", None), ("def", "self, __x: int", "None"), ("def", "a: memoryview, /, *, b: memoryview = None", "memoryview"),
             ("async def", "a: int", "int"), ("async def", "a: memoryview", "str"), ("def+yield", "a: int", "Iterator[int]"), ("async def+yield", "a: int", "AsyncIterator[int]"),
-            ("async def+nestedgen", "a: int", "int"), ("def+nestedgen", "a: int", "int"), ("def", "a: 'A', b: 'memoryview' = None", "'A'"), ("def", "*args: memoryview, **kw: A", "None")]
+            ("async def+nestedgen", "a: int", "int"), ("def+nestedgen", "a: int", "int"), ("def", "a: 'A', b: 'memoryview' = None", "'A'"), ("def", "*args: memoryview, **kw: A", "None"),
+            # variadic parameters described by Unpack (PEP 646 / PEP 692), plain and mixed with other parameters
+            ("def", "*args: Unpack[Tuple[int, str]]", "None"), ("def", "**kw: Unpack[TDK]", "None"), ("def", "a: int, *args: Unpack[Tuple[int, str]], **kw: Unpack[TDK]", "int"),
+            ("def", "*args: *tuple[int, str]", "None"), ("def", "*args: Unpack[Tuple[int, ...]]", "None"), ("def", "a: Callable[[int], str], b: type[A] = A", "Optional[A]"),
+            ("def", "a: Literal[1, 'x'] = 1, *, b: Annotated[int, 'm'] = 0", "Literal[None]"), ("def", "a: T, b: list[T]", "T"), ("def", "a: TB, *args: TB", "TB")]
+    # methods: the same headers behind self / cls, positional-only self, class and static methods
+    for mk, hdr in (("method", "self"), ("method", "self, /"), ("method", "self, a: int"), ("method", "self, /, a: int"), ("method", "self, /, a: memoryview = None, *, b: int = 0"),
+                    ("method", "self, *args: int, **kw: str"), ("classmethod", "cls, a: int"), ("classmethod", "cls, /, a: int"), ("staticmethod", "a: int, b: str = 'x'"),
+                    ("method", "this, a: int"), ("method", "self: 'K', a: int")):
+        out.append((mk, hdr, "int"))
     return out
 
 
 def _fn_src(kind, name, header, ret, indent):
     pad = " " * indent
+    if kind in ("method", "classmethod", "staticmethod"):
+        deco = "" if kind == "method" else pad + "    @%s\n" % kind
+        arrow = (" -> %s" % ret) if ret else ""
+        # the def-node value of the method is revealed from inside the class body of the module-level class itself (never executed at import)
+        # what the def-node builder makes of the first parameter is visible inside the body; the runtime builder's view is in the signature
+        first = header.split(",")[0].split(":")[0].strip()
+        body = "reveal_type(%s)" % first if kind != "staticmethod" else "reveal_type(a)"
+        return "%sclass K%s:\n%s%s    def m(%s)%s:\n%s        %s\n%s        return 1\n" % (pad, name, deco, pad, header.replace("'K'", "'K%s'" % name), arrow, pad, body, pad)
     arrow = (" -> %s" % ret) if ret else ""
     kw = "async def" if kind.startswith("async") else "def"
     if kind.endswith("+yield"):
@@ -222,10 +242,13 @@ def _hdr(res, tier, lo, hi):
         parts = [("from __future__ import annotations\n" if future else "") + PRE]
         for i, (kind, header, ret) in enumerate(hs):
             parts.append(_fn_src(kind, "m%d" % i, header, ret, 0))
-        parts.append("def outer() -> None:\n")
+        parts.append("def outer() -> None:\n    pass\n")
         for i, (kind, header, ret) in enumerate(hs):
+            if kind in ("method", "classmethod", "staticmethod"):
+                continue
             parts.append(_fn_src(kind, "g%d" % i, header, ret, 4))
-            parts.append("    reveal_type(g%d)\n" % i)
+            if kind not in ("method", "classmethod", "staticmethod"):
+                parts.append("    reveal_type(g%d)\n" % i)
         codeA = "".join(parts)
         mod = types.ModuleType(modname)
         mod.__dict__["__file__"] = modname + ".py"
@@ -253,15 +276,47 @@ def _hdr(res, tier, lo, hi):
             for i, (kind, header, ret) in enumerate(hs):
                 res.states += 1
                 order = (lo + i) * 2 + int(future)
-                ln = next(k + 1 for k, l in enumerate(lines) if l.strip() == "reveal_type(g%d)" % i)
+                is_m = kind in ("method", "classmethod", "staticmethod")
+                if is_m and kind != "method":
+                    continue        # for class/static methods the underlying function object does not say how it is bound: no runtime view of the first parameter
+                if is_m:
+                    start = next(k for k, l in enumerate(lines) if l.strip() == "class Km%d:" % i)
+                    ln = next(k + 1 for k in range(start, len(lines)) if lines[k].strip().startswith("reveal_type("))
+                    m = re.search(r"Revealed type is '(.*)'", revealed.get(ln, ""), re.S)
+                    body_type = _norm(m.group(1)) if m else _norm(revealed.get(ln, ""))
+                    fobj = getattr(mod, "Km%d" % i).__dict__["m"]
+                    fobj = getattr(fobj, "__func__", fobj)
+                    sig = ck.arg_spec_cache.get_argspec(fobj)
+                    res.validated += 1
+                    rt_first = "None"
+                    if sig is not None and hasattr(sig, "parameters") and sig.parameters:
+                        p0 = list(sig.parameters.values())[0]
+                        rt_first = _norm(p0.annotation if p0.annotation is not None else "Any[unannotated]")
+                    body_type2 = re.sub(r"\bKm\d+\b", "K", body_type)
+                    rt_first2 = re.sub(r"\bKm\d+\b", "K", rt_first)
+                    same = body_type2 == rt_first2 or (kind == "classmethod" and body_type2.replace("type[", "").rstrip("]") in rt_first2)
+                    res.outcomes["method-first-param:%s" % ("same" if same else "differs")] += 1
+                    if not same:
+                        res.violation({"kind": "signature-routes-differ", "defkind": kind, "future": str(int(future)), "dunder": "0", "header": re.sub(r"\b(int|memoryview|str)\b", "_", header)},
+                                      {"mode": "hdr", "header": [kind, header, ret], "future": future, "order": order},
+                                      "%s m(%s): inside the body the first parameter is %s (def-node route); the signature built from the function object gives it %s%s"
+                                      % (kind, header, body_type2, rt_first2, " [future annotations]" if future else ""))
+                    continue
+                else:
+                    ln = next(k + 1 for k, l in enumerate(lines) if l.strip() == "reveal_type(g%d)" % i)
                 ast_sig = revealed.get(ln, "")
                 m = re.search(r"Revealed type is '(.*)'", ast_sig, re.S)
                 ast_sig = _norm(m.group(1)) if m else _norm(ast_sig)
-                sig = ck.arg_spec_cache.get_argspec(getattr(mod, "m%d" % i))
+                try:
+                    sig = ck.arg_spec_cache.get_argspec(getattr(getattr(mod, "Km%d" % i), "m") if is_m else getattr(mod, "m%d" % i))
+                except Exception as e:
+                    res.violation({"kind": "runtime-route-raises", "exc": type(e).__name__, "defkind": kind}, {"mode": "hdr", "header": [kind, header, ret], "future": future, "order": order},
+                                  "get_argspec raised %r for %s f(%s)" % (e, kind, header))
+                    continue
                 rt_sig = _norm(sig) if sig is not None else "None"
                 res.validated += 1
-                a2 = re.sub(r"\bg\d+\b", "F", ast_sig)
-                r2 = re.sub(r"\bm\d+\b", "F", rt_sig)
+                a2 = re.sub(r"\bK?g\d+\b", "F", ast_sig)
+                r2 = re.sub(r"\bK?m\d+\b", "F", rt_sig)
                 same = _sigeq(a2, r2)
                 res.outcomes["header:%s" % ("same" if same else "differs")] += 1
                 if not same:
